@@ -94,6 +94,8 @@ def run_job(job, seed, tier, outdir, idx):
         argv = [binp, job["mode"], "--seed", str(seed), "--shard", "%d/%d" % (i, shards), "--tier", tier, "--out", out, "--distinct-out", dout]
         for k, v in job.get("args", {}).items():
             argv += ["--" + k, str(v)]
+        if job.get("trace"):
+            argv += ["--trace-out", os.path.join(outdir, "trace-%s-%d-%d.txt" % (job.get("variant", "full"), idx, i))]
         t0 = time.time()
         attempt = 0
         while True:
@@ -205,6 +207,9 @@ def check(prop, tier, seed):
                     extra.setdefault(k, r[k])
         if not job.get("_witness_of"):
             per_job.append({"mode": job["mode"], "variant": job.get("variant", "full"), "profile": job.get("profile", "relcheck"), "args": job.get("args", {}), "evaluations": jev})
+    post = PLANS[prop].get("post")
+    if post == "c19":
+        violations += c19_compare(outdir, jobs, counters)
     # classify violations
     mine, foreign = [], []
     for v in violations:
@@ -283,6 +288,64 @@ def check(prop, tier, seed):
     if rc == 0 and evaluations < floor:
         return 2
     return rc
+
+
+def parse_traces(path):
+    cases = {}
+    cur = None
+    try:
+        for line in open(path, encoding="utf-8", errors="replace"):
+            line = line.rstrip("\n")
+            if line.startswith("#CASE "):
+                parts = line.split()
+                cur = (parts[1], parts[2])
+                cases[cur] = {"image": parts[3], "lines": []}
+            elif cur is not None:
+                cases[cur]["lines"].append(line)
+    except FileNotFoundError:
+        pass
+    return cases
+
+
+NOUNI_KINDS = {"namelen-ascii", "sess-ascii", "sess-exact", "foreign-read", "foreign-write"}
+
+
+def c19_compare(outdir, jobs, counters):
+    """Pairwise comparison of the traces written by the same driver compiled under three feature sets."""
+    by_variant = {}
+    for idx, job in enumerate(jobs):
+        if not job.get("trace"):
+            continue
+        v = job.get("variant", "full")
+        for f in glob.glob(os.path.join(outdir, "trace-%s-%d-*.txt" % (v, idx))):
+            by_variant.setdefault(v, {}).update(parse_traces(f))
+    out = []
+    full = by_variant.get("full", {})
+    for other, kinds in (("noalloc", None), ("nouni", NOUNI_KINDS)):
+        oth = by_variant.get(other, {})
+        compared = 0
+        for key, a in full.items():
+            if kinds is not None and key[0] not in kinds:
+                continue
+            b = oth.get(key)
+            if b is None:
+                out.append({"property": "C19", "sig": "C19|%s|missing-case" % other, "rule": "missing-case",
+                            "detail": "case %s %s produced by the full build is missing from the %s build's output" % (key[0], key[1], other), "replay": {"argv": ["c19"]}})
+                break
+            compared += 1
+            if a["lines"] != b["lines"]:
+                i = next((i for i, (x, y) in enumerate(zip(a["lines"], b["lines"])) if x != y), min(len(a["lines"]), len(b["lines"])))
+                la = a["lines"][i] if i < len(a["lines"]) else "<end of trace>"
+                lb = b["lines"][i] if i < len(b["lines"]) else "<end of trace>"
+                out.append({"property": "C19", "sig": "C19|%s|trace|%s" % (other, key[0]), "rule": "trace-differs",
+                            "detail": "case %s %s: observation %d differs between the full and the %s build:\n      full : %s\n      %s: %s" % (key[0], key[1], i, other, la[:600], other, lb[:600]),
+                            "replay": {"argv": ["c19"], "case": list(key), "history": a["lines"][: i + 1][-12:]}})
+            elif a["image"] != b["image"]:
+                out.append({"property": "C19", "sig": "C19|%s|image|%s" % (other, key[0]), "rule": "image-differs",
+                            "detail": "case %s %s: identical observations but the final images differ between the full and the %s build (%s vs %s)" % (key[0], key[1], other, a["image"], b["image"]),
+                            "replay": {"argv": ["c19"], "case": list(key), "history": a["lines"][-12:]}})
+        counters["cases_compared_full_vs_%s" % other] = compared
+    return out
 
 
 def replay(path):
